@@ -121,6 +121,8 @@ type OptNode struct {
 	Validator bool     `json:"validator,omitempty"`
 	ErrFunc   bool     `json:"errFunc,omitempty"` // callbacks: func type returns error
 
+	FieldAlias string `json:"fieldAlias,omitempty"` // Go field name shared with an option of an enclosing group ("" = the unique F<idx>)
+
 	idx   int
 	field string
 }
@@ -137,6 +139,11 @@ type GroupNode struct {
 	// struct fields of this group's struct that carry no-flag (with or without a group tag): nothing inside them is declared,
 	// whatever tags their own fields have (the flat declaration does not contain them)
 	NoFlag []*GroupNode `json:"noFlag,omitempty"`
+	// the options Opts[InlineFrom:] are declared inside an untagged struct field ("val") or an untagged, non-nil pointer to
+	// a struct ("ptr") placed after the direct options: the library flattens it into this group, so the flat declaration
+	// is the same ("" = every option is a direct field)
+	Inline     string `json:"inline,omitempty"`
+	InlineFrom int    `json:"inlineFrom,omitempty"`
 
 	idx int
 }
@@ -412,6 +419,9 @@ func Flatten(t *Tree) *Decl {
 				d.Opts = append(d.Opts, fo)
 				o.idx = len(d.Opts)
 				o.field = fieldName(o.idx)
+				if o.FieldAlias != "" {
+					o.field = o.FieldAlias
+				}
 				d.Opts[o.idx-1].Field = toS(o.field)
 			}
 			for _, sg := range g.Groups {
